@@ -40,6 +40,7 @@ static var the_gc;
 static int next_alloc = -1;                /* index (not id) the next Probe allocation gets */
 static uintptr_t words[MAXW]; static int nwords;
 static int hook_calls, hook_lost;
+static char alive[MAXOBJ];                 /* the allocator's view: handed out and not yet released */
 static int stepno;
 static int h_brief;                         /* Q toggles: slot field = #<fnv1a-32 of the slot text> */
 static int sorted_idx[MAXOBJ];             /* object indices sorted by address */
@@ -89,28 +90,32 @@ static var Probe_Alloc(void) {
   memset(head, 0, sizeof(struct Header) + sizeof(struct Probe));
   var self = header_init(head, Probe, AllocHeap);
   ((struct Probe*)self)->idx = idx;
+  alive[idx] = 1;
   return self;
 }
 
-static void Probe_Dealloc(var self) { /* arena memory is never handed back */ }
+static void Probe_Dealloc(var self) {
+  /* the block is released: from now on the scripted allocator may hand the address out again */
+  alive[(int)((struct Probe*)self)->idx] = 0;
+}
 
 static void do_del(int idx) {
   if (running(the_gc)) P("r%d", oid[idx]);
   del((var)addr_of(idx));
 }
 
-/* alloc / alloc_root from inside a destructor.  Not done (and flagged `!`) when the address is
-   still registered or pending: no allocator would return it. */
-static void do_spawn(int idx, int root) {
-  struct GC* gc = the_gc;
-  var p = (var)addr_of(idx);
+/* alloc / alloc_root from inside a destructor.  Not done (and flagged `!`) while the block at
+   that address is still handed out (no allocator would return it); an address whose previous
+   owner was finalised and released earlier, even in the same sweep, is fine.  A temporary is
+   deleted again at once. */
+static void do_spawn(int idx, int flags) {
+  int root = flags & 1, temp = flags & 2;
   if (!running(the_gc)) return;
-  int busy = GC_Mem_Ptr(gc, p);
-  for (size_t i = 0; i < gc->freenum; i++) if (gc->freelist[i] == p) busy = 1;
-  if (busy) { P("!"); return; }
+  if (alive[idx]) { P("!"); return; }
   P("s%d:%d", oid[idx], root);
   next_alloc = idx;
   if (root) { var q = alloc_root(Probe); (void)q; } else { var q = alloc(Probe); (void)q; }
+  if (temp) do_del(idx);
 }
 
 static void Probe_Del(var self) {
@@ -173,8 +178,8 @@ static void one_case(char* line) {
     if (c3) {
       char* q = c3 + 1; char* t;
       while ((t = next_tok(&q, '.')) != NULL && nspw[nobj-1] < MAXOWN) {
-        size_t n = strlen(t); int root = n > 0 && t[n-1] == 'r';
-        ospw[nobj-1][nspw[nobj-1]] = atoi(t); ospr[nobj-1][nspw[nobj-1]] = root; nspw[nobj-1]++;
+        int fl = (strchr(t, 'r') ? 1 : 0) | (strchr(t, 't') ? 2 : 0);
+        ospw[nobj-1][nspw[nobj-1]] = atoi(t); ospr[nobj-1][nspw[nobj-1]] = fl; nspw[nobj-1]++;
       }
     }
     if (c2) {
@@ -196,7 +201,7 @@ static void one_case(char* line) {
   }
   var bottom = NULL;
   the_gc = new_raw(GC, $R(&bottom));
-  nwords = 0; hook_calls = 0; hook_lost = 0;
+  nwords = 0; hook_calls = 0; hook_lost = 0; memset(alive, 0, sizeof alive);
   stepno = 0;
   P("new;"); dump();
   s = bar + 1;
